@@ -417,10 +417,13 @@ Section Roundtrip.
   Variable T : json_tags.
   Hypothesis Hok : tags_ok T = true.
 
+  Lemma ok_and : forall a b, a && b = true -> a = true /\ b = true.
+  Proof. intros a b H. apply andb_true_iff in H. exact H. Qed.
+
   Ltac from_ok :=
     let H := fresh "H" in
-    pose proof Hok as H; unfold tags_ok in H; rewrite !andb_true_iff in H;
-    repeat match goal with H : _ /\ _ |- _ => destruct H end;
+    pose proof Hok as H; unfold tags_ok in H;
+    repeat (apply ok_and in H; let H2 := fresh "H" in destruct H as [H H2]);
     try assumption;
     try (apply Z.eqb_eq; assumption);
     try (apply negb_true_iff; assumption).
@@ -1107,7 +1110,7 @@ Section Graph.
   Proof.
     intros save w Hn Hch x Hr. inversion Hr; subst.
     - split; [intros _; exact Hn|].
-      intros (c & Hin & Hrc). destruct (Hch c Hin w Hrc) as [Hns _].
+      intros (c & Hin & Hrc). destruct (Hch c Hin x Hrc) as [Hns _].
       apply Hns; [|left; reflexivity].
       intros E. rewrite E in Hin. inversion Hin.
     - destruct (Hch c H x H0) as [Hns Hcy]. split; auto.
@@ -1191,3 +1194,16 @@ Section Graph.
     - congruence.
   Qed.
 End Graph.
+
+(* ------------------------------------------------------------------ closing lemmas *)
+Lemma actual_table_ok : tags_ok actual_table = true.
+Proof. vm_compute. reflexivity. Qed.
+
+Lemma decoded_no_trap : forall T, tags_ok T = true ->
+  forall j v, of_json T j = Some v ->
+    notrap (r_to_string T v) /\ notrap (r_truthy T v) /\ notrap (r_to_json T v) /\ notrap (r_equal T v v).
+Proof.
+  intros T Hok j v H. pose proof (of_json_wf T j v H) as Hw.
+  destruct (wf_no_trap T Hok v Hw) as (H1 & H2 & H3 & H4). destruct (H4 v Hw) as [H5 _].
+  repeat split; assumption.
+Qed.
